@@ -678,7 +678,7 @@ func (c *hctx) structLit(v *ast.CompositeLit, t *hty, pre *[]hbind) string {
 			c.lostAt(v, "composite literal field")
 		}
 		x, xt := c.expr(val, pre)
-		if xt.k == "func" {
+		if xt.k == "func" && !plainFuncValue(xt) {
 			c.lostAt(val, "field value of type %s", xt.k)
 		}
 		vals[k] = paren(x)
@@ -919,8 +919,14 @@ func (c *hctx) call(v *ast.CallExpr, pre *[]hbind, want []string) ([]string, []*
 		}
 		c.lostAt(v, "conversion %s", src(v))
 	}
+	if vals, ts, ok := c.callPkgFn(v, pre); ok {
+		return vals, ts
+	}
 	if cal := g.calleeOf(v.Fun); cal != nil {
 		return c.callTranslated(cal, v.Fun, v.Args, v.Ellipsis.IsValid(), nil, v, pre, want)
+	}
+	if vals, ts, ok := c.callSliceFunc(v, pre); ok {
+		return vals, ts
 	}
 	if vals, ts, ok := c.callPkg(v, pre); ok {
 		return vals, ts
@@ -943,6 +949,10 @@ func (c *hctx) call(v *ast.CallExpr, pre *[]hbind, want []string) ([]string, []*
 					// new(S) of a heap struct, or of a wrapper around one: a fresh zero cell
 					rt := c.cellRecordType(&hty{k: "hptr", name: pt.name, args: pt.args})
 					return one(c.alloc(v, c.zeroOf(rt, v), pre), pt)
+				}
+			case "make":
+				if vals, ts, ok := c.makeSlice(v, pre); ok {
+					return vals, ts
 				}
 			case "min", "max":
 				x, t := c.expr(v.Args[0], pre)
